@@ -32,10 +32,12 @@ WRITE = (
     ['.a |= .', '.b |= .', '.k |= .', '.[0] |= .', '.. |= .', '.a += 1', '.[] |= .', '.k |= "x"',
      'del(.a)', 'del(.b)', 'del(.[0])', 'del(.k)', 'del(.c) | .b', 'del(.k.j)',
      '. * {"n": {"m": 1}}', '. * {"k": {"m": 1}}', '. + {"n": 1}', '. *= {"n": {"m": [1, {"o": 2}]}}', '.k * {"m": {"o": 1}}',
-     '.b = "x" | .a'])
+     '.b = "x" | .a',
+     # writes through an alias / through the anchored original that change an inner anchored node
+     '.b.p = 2', '.b.p |= . + 1', '.b.p.r = 2', '.b.q = 2', '.a.p = 5', '.[1].p = [2]', '.l[1].p = [2]', '.l[0].p = 3', '.c = 7 | .b.p = 2'])
 WRITE_QUICK = ['.zz = 1', '.a.k = 2', '.b.k = 9', '.x.y.z = 1', '.b = .a', '.j = .k', '.[1] = .[0]', '.k[1] = .k[0]', '.[.k] = 1',
                '.a = ["", " ", "a\\tb", "é", "\\u0001"]', '.a = "x: y"', '.a = "*x"', '.a = "0x1F"', '.a = "l1\\nl2\\n"', '.a = "a,b"', '.a = " s "',
-               '.a |= .', '.. |= .', 'del(.a)', 'del(.[0])', 'del(.c) | .b', '. * {"n": {"m": 1}}', '. + {"n": 1}']
+               '.a |= .', '.. |= .', 'del(.a)', 'del(.[0])', 'del(.c) | .b', '. * {"n": {"m": 1}}', '. + {"n": 1}', '.b.p = 2', '.[1].p = [2]', '.l[1].p = [2]']
 QSTR = ["a", "", " a", "a: b", "0x1F", "true", "~", "é", "a\nb", "'", "*a", "a,b", "|", "---"]
 QKEYS = ["k", "a b", "", "true", "a: b", " a", "a,b", "|", "%a", "-", "<<"]
 
